@@ -53,7 +53,7 @@ func runC01(p *Program, r *Report) {
 	for _, m := range []struct {
 		r string
 		n int
-	}{{"C01.R1", 12}, {"C01.R2", 9}, {"C01.R3", 4}, {"C01.R4", 1}, {"C01.R5", 12}, {"C01.R6", 6}, {"C01.R7", 8}, {"C01.R8", 1}, {"C01.R9", 7}, {"C01.R10", 2}, {"C01.R11", 1}, {"C01.R12", 15}, {"C01.R13", 1}, {"C01.R14", 3}, {"C01.R15", 5}, {"C01.R16", 3}} {
+	}{{"C01.R1", 12}, {"C01.R2", 9}, {"C01.R3", 4}, {"C01.R4", 1}, {"C01.R5", 12}, {"C01.R6", 6}, {"C01.R7", 8}, {"C01.R8", 1}, {"C01.R9", 7}, {"C01.R10", 2}, {"C01.R11", 1}, {"C01.R12", 15}, {"C01.R13", 1}, {"C01.R14", 3}, {"C01.R15", 5}, {"C01.R16", 3}, {"C01.R17", 1}} {
 		r.Min(m.r, m.n)
 	}
 	checkSpeculativeMerge(p, r, "C01.R9")
@@ -322,6 +322,7 @@ func runC01(p *Program, r *Report) {
 	checkContextFieldCompleteness(p, r)
 	checkContextEqStrict(p, r, "C01.R15")
 	checkActionAdvance(p, r, "C01.R16")
+	checkRangeReentryAgreement(p, r, "C01.R17")
 	// ---- R6 joins -----------------------------------------------------------------------------------------
 	checkJoins(p, r)
 	checkMemoOutput(p, r, "C01.R6")
@@ -612,7 +613,16 @@ func checkJoins(p *Program, r *Report) {
 		joins := callsIn(fn, pkgTemplate+".join")
 		var reentry *ssa.Call
 		for _, j := range joins {
-			if ex, ok := j.Common().Args[1].(*ssa.Extract); ok {
+			arg := j.Common().Args[1]
+			// the re-entry context may live in a local (its fields are looked at before the join)
+			if u, ok := arg.(*ssa.UnOp); ok {
+				if al, ok := u.X.(*ssa.Alloc); ok {
+					if st := singleStoreLoose(al); st != nil {
+						arg = st.Val
+					}
+				}
+			}
+			if ex, ok := arg.(*ssa.Extract); ok {
 				if cl, ok := ex.Tuple.(*ssa.Call); ok {
 					if g := staticCallee(cl.Common()); g != nil && cname(g) == "escapeListConditionally" {
 						reentry = j
@@ -638,18 +648,50 @@ func checkJoins(p *Program, r *Report) {
 					okRet = false
 				}
 			} else {
-				// error pass-through
-				if !pth.HasMatching(func(nm string, val bool) bool { return val && isErrAtom(nm) }) {
+				// error pass-through, or a fresh error context
+				if !pth.HasMatching(func(nm string, val bool) bool { return val && isErrAtom(nm) }) && !isErrorContextLiteral(v, stErr) {
 					okRet = false
 				}
 			}
 			isRange := pth.HasMatching(func(nm string, val bool) bool { return val && strings.Contains(nm, `"range"`) })
 			bodyErr := pth.HasMatching(func(nm string, val bool) bool { return val && isErrAtom(nm) })
-			if isRange && !bodyErr && (reentry == nil || !pth.Passes(reentry)) {
+			if isRange && !bodyErr && !isErrorContextLiteral(v, stErr) && (reentry == nil || !pth.Passes(reentry)) {
 				okRange = false
 			}
 		}
 		r.Check(okRet && n > 0, "C01.R6", "template.(*escaper).escapeBranch#join", p.Pos(fn.Pos()), "returns join(context after the branch, context after the else branch)", "a branch node's output context is not the join of both branches")
+		// the second pass starts where the first one ended, not where the loop was entered
+		if reentry != nil {
+			arg := reentry.Common().Args[1]
+			if u, ok := arg.(*ssa.UnOp); ok {
+				if al, ok := u.X.(*ssa.Alloc); ok {
+					if st := singleStoreLoose(al); st != nil {
+						arg = st.Val
+					}
+				}
+			}
+			if ex, ok := arg.(*ssa.Extract); ok {
+				if cl, ok := ex.Tuple.(*ssa.Call); ok && len(cl.Common().Args) >= 2 {
+					start := cl.Common().Args[1]
+					fromParam := false
+					switch y := start.(type) {
+					case *ssa.Parameter:
+						fromParam = true
+					case *ssa.UnOp:
+						if al, ok := y.X.(*ssa.Alloc); ok {
+							for _, prm := range fn.Params {
+								if allocHoldsParam(al, prm) && singleStoreLoose(al) != nil {
+									fromParam = true
+								}
+							}
+						}
+					}
+					if fromParam {
+						okRange = false
+					}
+				}
+			}
+		}
 		r.Check(okRange, "C01.R6", "template.(*escaper).escapeBranch#range-reentry", p.Pos(fn.Pos()), "for range the body is escaped again from its own output context and joined (loop re-entry)", "a range body is not re-checked from its own output context")
 	}
 	// computeOutCtx
@@ -701,4 +743,28 @@ func checkJoins(p *Program, r *Report) {
 		}
 		r.Check(ok && n > 0, "C01.R6", "template.(*escaper).computeOutCtx", p.Pos(fn.Pos()), "a called template's output context is used only if its body analysis reported a consistent result (or carries an error)", "the output context of a template call is used although its recursive analysis did not converge")
 	}
+}
+
+// isErrorContextLiteral: v is a context literal built in place whose state field is the error state.
+func isErrorContextLiteral(v ssa.Value, stErr int64) bool {
+	u, ok := v.(*ssa.UnOp)
+	if !ok {
+		return false
+	}
+	al, ok := u.X.(*ssa.Alloc)
+	if !ok {
+		return false
+	}
+	for _, ref := range *al.Referrers() {
+		if fa, ok := ref.(*ssa.FieldAddr); ok && fieldName(fa.X.Type(), fa.Field) == "state" {
+			for _, rr := range *fa.Referrers() {
+				if st, ok := rr.(*ssa.Store); ok {
+					if k, ok := constInt(st.Val); ok && k == stErr {
+						return true
+					}
+				}
+			}
+		}
+	}
+	return false
 }
